@@ -20,6 +20,13 @@ CLAIMED = {
              "loop left only on CAS success), release protocol (release store / full barrier), lock/unlock state-encoding "
              "agreement, for the c11, sync and sim models. " + DECIDES % "C01",
         technique="path-sensitive CFG dataflow over clang AST facts: wrapper-wiring check, reaching constant of the CAS expected value, memory-order lattice"),
+    "C04": dict(
+        text="Rules C04.1-C04.4 over all 16 p_atomic_* operations in the c11, sync and sim models (48 instances): symbolic "
+             "evaluation of every CFG path with a semantics table for the __atomic/__sync builtins, comparing the stored and the "
+             "returned value with the operation's specification term (fetch-vs-op-fetch, operand order of compare-exchange, "
+             "dec_and_test polarity, SEQ_CST orders, strong CAS); indivisibility from the per-path event trace (one builtin and no "
+             "plain access; sync get/set barrier side; sim: every access inside the one global mutex, balanced); operand width. " + DECIDES % "C04",
+        technique="symbolic term evaluation of each operation against a specification term + per-path event-trace discipline (lock coverage, barrier side, single RMW)"),
 }
 
 NOT_YET = "check not yet armed (framework under construction); see DESIGN.md section 4 for the planned structural clauses"
